@@ -210,7 +210,14 @@ func (c *connector) handshake() (*Conn, *http.Response, error) {
 // 从响应中获取子协议
 // Retrieves the subprotocol from the response
 func (c *connector) getSubProtocol(resp *http.Response) (string, error) {
-	a := internal.Split(c.option.RequestHeader.Get(internal.SecWebSocketProtocol.Key), ",")
+	// RequestHeader is copied to the request key by key, so look the key up the way it was spelled
+	var requested = c.option.RequestHeader.Get(internal.SecWebSocketProtocol.Key)
+	for k, v := range c.option.RequestHeader {
+		if requested == "" && len(v) > 0 && strings.EqualFold(k, internal.SecWebSocketProtocol.Key) {
+			requested = v[0]
+		}
+	}
+	a := internal.Split(requested, ",")
 	b := internal.Split(resp.Header.Get(internal.SecWebSocketProtocol.Key), ",")
 	subprotocol := internal.GetIntersectionElem(a, b)
 	if len(a) > 0 && subprotocol == "" {
